@@ -32,6 +32,7 @@ import (
 )
 
 type Clause struct {
+	Local bool // checked at the definition only (may name locals of the function); not assumed by callers
 	Label string
 	Src   string
 	File  string
@@ -240,6 +241,10 @@ func (db *ContractDB) loadFile(fn string) error {
 				cur.Requires = append(cur.Requires, mkClause(rest))
 			case "ensures":
 				cur.Ensures = append(cur.Ensures, mkClause(rest))
+			case "ensures_local":
+				c := mkClause(rest)
+				c.Local = true
+				cur.Ensures = append(cur.Ensures, c)
 			case "assert":
 				c := mkClause(rest)
 				cur.Asserts[c.Label] = c
